@@ -283,6 +283,8 @@ async def asgi_access(req, op, keep):
         if op == "close":
             await req.close()
             return ("v", None), None
+        if op == "poll":
+            return ("v", await req.is_disconnected()), None
     except Exception as e:  # noqa
         return classify_exc(e), None
 
@@ -292,7 +294,7 @@ def run_sequence_asgi(kind, chunks, seq, disc_at):
 
     areq = make_req(kind, chunks)
     msgs = SV.to_messages(areq, disconnect_at=disc_at)
-    state = {"i": 0, "extra": 0}
+    state = {"i": 0, "extra": 0, "gone": False, "polling": False}
     problems = []
     results = []
     ref = Ref(kind, disconnect=disc_at is not None, cache_errors=True)
@@ -301,8 +303,12 @@ def run_sequence_asgi(kind, chunks, seq, disc_at):
             if state["i"] < len(msgs):
                 m = msgs[state["i"]]
                 state["i"] += 1
+                state["gone"] = state["gone"] or m["type"] == "http.disconnect"
                 return dict(m)
-            state["extra"] += 1
+            if state["gone"]:
+                return {"type": "http.disconnect"}  # a server keeps answering this once the client has left
+            if not state["polling"]:
+                state["extra"] += 1
             await s.env.gate("never")
             return {"type": "http.disconnect"}
 
@@ -312,8 +318,20 @@ def run_sequence_asgi(kind, chunks, seq, disc_at):
 
         async def prog():
             for i, op in enumerate(seq):
-                got, obj = await asgi_access(req, op, keep)
-                want = ref.step(op)
+                if op == "poll":
+                    # "has the client left?" is asked once no request message is waiting (it reads one message): the next
+                    # message is the disconnect, or none will ever come
+                    nxt = msgs[state["i"]]["type"] if state["i"] < len(msgs) else None
+                    if nxt == "http.request":
+                        results.append(("skipped",))
+                        continue
+                    want = ("v", state["gone"] or nxt == "http.disconnect")
+                    state["polling"] = True
+                    got, obj = await asgi_access(req, op, keep)
+                    state["polling"] = False
+                else:
+                    got, obj = await asgi_access(req, op, keep)
+                    want = ref.step(op)
                 results.append(got)
                 if not compare(got, want, ref.B):
                     problems.append((i, op, got, want))
@@ -325,7 +343,7 @@ def run_sequence_asgi(kind, chunks, seq, disc_at):
                     cached[op] = obj
 
         task = s.loop.create_task(prog())
-        x = s.drive(task, [], env_filter=lambda n: False)
+        x = s.drive(task, [], max_timers=len(seq), env_filter=lambda n: False)
         if not task.done():
             problems.append((len(results), "stuck", "access never completed although every message was available", None))
         elif task.exception():
@@ -597,7 +615,7 @@ def run_shard(desc, tier):
             variants += [(base, d) for d in range(len(base) + 0)] + [([B], 0)]
         for chunks, disc_at in variants:
             for n in range(1, DEPTH[tier] + 1):
-                for seq in itertools.product(ACCESSES, repeat=n):
+                for seq in itertools.product(ACCESSES + (["poll"] if iface == "asgi" else []), repeat=n):
                     probs, key, results = run_sequence(iface, kind, chunks, seq, disc_at)
                     r.count("evaluations")
                     r.count("transitions", len(results))
